@@ -77,6 +77,7 @@ def worker(args):
 
     fns = {
         "VerifyingKey.from_string": lambda b: VerifyingKey.from_string(b, curve),
+        "VerifyingKey.from_string|validate_point=False": lambda b: VerifyingKey.from_string(b, curve, validate_point=False),
         "VerifyingKey.from_der": lambda b: VerifyingKey.from_der(b),
         "VerifyingKey.from_pem": lambda b: VerifyingKey.from_pem(b),
         "SigningKey.from_string": lambda b: SigningKey.from_string(b, curve),
@@ -201,6 +202,14 @@ def run(ctx):
                  E.encode_sequence(E.encode_integer(0), E.encode_sequence(), E.encode_octet_string(sk.to_der())),
                  E.encode_sequence(E.encode_integer(2), E.encode_sequence(alg, c.encoded_oid), E.encode_octet_string(sk.to_der()))]
         points = [m for enc in ("raw", "uncompressed", "compressed", "hybrid") for m in mutations(vk.to_string(enc), subs[:8], rnd, 1500)]
+        # coordinates that are not reduced modulo the field prime, in every point encoding
+        pp, L_ = c.curve.p(), (len("%x" % c.curve.p()) + 1) // 2
+        raw_ = vk.to_string("raw")
+        for bad_ in (pp, pp + 1, int.from_bytes(raw_[:L_], "big") + pp, 256 ** L_ - 1):
+            if bad_ < 256 ** L_:
+                bb = bad_.to_bytes(L_, "big")
+                points += [bb + raw_[L_:], raw_[:L_] + bb, b"\x04" + bb + raw_[L_:], b"\x04" + raw_[:L_] + bb, b"\x02" + bb, b"\x03" + bb,
+                           b"\x06" + bb + raw_[L_:], b"\x07" + raw_[:L_] + bb]
         skstr = mutations(sk.to_string(), subs[:6], rnd, 800) + [b"\x00" * c.baselen, b"\xff" * c.baselen, c.order.to_bytes(c.baselen, "big")]
         sig = sk.sign_deterministic(b"c10")
         sigder = sk.sign_deterministic(b"c10", sigencode=util.sigencode_der)
@@ -212,7 +221,8 @@ def run(ctx):
         sigs_pairs = [[r_, s_], [r_], [], [r_, s_, s_], [r_[:-1], s_], [r_, s_ + b"\x00"], [b"", b""], [r_, b""], [b"", s_],
                       [r_ + b"\x01", s_[:-1]], (r_, s_), [bytearray(r_), bytearray(s_)]]
         table = {
-            "VerifyingKey.from_string": points + short, "VerifyingKey.from_der": spki + short + priv[:300],
+            "VerifyingKey.from_string": points + short, "VerifyingKey.from_string|validate_point=False": points[::3] + points[-40:] + short[:600],
+            "VerifyingKey.from_der": spki + short + priv[:300],
             "VerifyingKey.from_pem": pems_pub, "SigningKey.from_string": skstr + short[:600],
             "SigningKey.from_der": priv + short + spki[:300], "SigningKey.from_pem": pems_priv,
             "sigdecode_string": sigs_raw + short[:600], "sigdecode_strings": sigs_pairs, "sigdecode_der": sigs_der + short,
@@ -236,7 +246,7 @@ def run(ctx):
             for cls, (count, example) in agg.items():
                 total += count
                 ex_repr = repr(example)[:300]
-                events.append({"ep": ep, "cls": cls, "count": count, "curve": cname})
+                events.append({"ep": ep.split("|")[0], "cls": cls, "count": count, "curve": cname})
                 meta.append((ep, cname, cls, count, ex_repr, example))
     ctx.evaluations += total
     bad, st = core.validate_traces(ctx.workdir, "ExcTrace", TRACE_CFG, events, shards=2)
